@@ -25,8 +25,9 @@ EXPLANATION = (
     "moments are the Gauss-Chebyshev-Lobatto sums and are linear in deltaF, T30/T33 "
     "assembled from them equal the sum of p^mu p^nu deltaF boosted with gamma(1,v), every "
     "weight multiplication acts on nodal values for both solver bases, and the rule is "
-    "exact on sqrt(1-x^2) * polynomial of degree <= 2n-3 (discrete orthogonality proved; "
-    "the continuous Chebyshev-U orthogonality is a named hypothesis validated numerically). "
+    "exact on sqrt(1-x^2) * (combination of U_0..U_{2n-3}): the double sum equals the product "
+    "of the integrals int_0^pi sin^2 t q(cos t) dt (proved, is_RInt); only the substitution "
+    "x = cos t to the dx form is an explicit premise, validated numerically. "
     "Model values are compared with the implementation by certified interval evaluation and "
     "the property itself is evaluated on the implementation with closed-form oracles.")
 
@@ -112,6 +113,22 @@ def to_solver_repr(nodal, grid, basisM, basisN):
     return out
 
 
+def from_solver_repr(coeffs, grid, basisM, basisN):
+    """values at the nodes of the function whose coefficients are `coeffs` (forward
+    multiplication by the basis matrices; well conditioned, unlike the inverse above)"""
+    chi, rz, rp = grid.getCompactCoordinates()
+    out = coeffs
+    if basisM == "Chebyshev":
+        V = restricted_cheb(chi, range(2, grid.M + 1), "full")
+        out = np.einsum("in,anjk->aijk", V, out)
+    if basisN == "Chebyshev":
+        Vz = restricted_cheb(rz, range(2, grid.N + 1), "full")
+        Vp = restricted_cheb(rp, range(1, grid.N), "partial")
+        out = np.einsum("jn,aink->aijk", Vz, out)
+        out = np.einsum("kn,aijn->aijk", Vp, out)
+    return out
+
+
 def nodal_of(poly):
     poly = copy.deepcopy(poly)
     poly.changeBasis(("Array", "Cardinal"))
@@ -168,7 +185,9 @@ def exact_family(grid, particles, bg, A, B, gz):
     ws = dict(Delta00=np.ones_like(energy), Delta02=pz4 ** 2 * np.ones_like(energy),
               Delta20=energy ** 2, Delta11=energy * pz4)
     closed = gz(chi) * poly_int(A) * poly_int(B) * T0 ** 3 / math.pi ** 2
-    return {k: g * base / w for k, w in ws.items()}, closed
+    meas = own_measure(grid, grid.N, T0, rz, rp, pp4, energy)
+    return {k: g * base / w for k, w in ws.items()}, closed, \
+        {k: meas * w for k, w in ws.items()}
 
 
 def rand_poly(rng, deg):
@@ -201,7 +220,7 @@ def check_exact(ctx, cfg):
     for step, T in enumerate(scales):
         if step:
             grid.changeMomentumFalloffScale(T)
-        devs, closed = exact_family(grid, particles, bg, A, B, gz)
+        devs, closed, mw = exact_family(grid, particles, bg, A, B, gz)
         fresh = None
         if step:
             fgrid = make_grid(cfg["grid"], cfg["M"], N, T)
@@ -215,10 +234,14 @@ def check_exact(ctx, cfg):
                       bucket="%s/%s/%s/N=%d%s" % (cfg["basisM"][:4], cfg["basisN"][:4],
                                                   cfg["mass"], N,
                                                   "/rescaled" if step else ""))
-            err = float(np.max(np.abs(got / closed[None, :] - 1)))
+            # the oracle is the closed form; the (tiny) error made by MY conversion of the
+            # nodal values into spectral coefficients is accounted for exactly
+            rep_err = from_solver_repr(deltaF, grid, cfg["basisM"], cfg["basisN"]) - devs[name]
+            want = closed[None, :] + np.sum(mw[name] * rep_err, axis=(2, 3))
+            relerr = np.abs(got - want) / np.abs(closed[None, :])
+            err = float(np.max(relerr))
             if not err < RTOL:
-                a, i = np.unravel_index(np.argmax(np.abs(got / closed[None, :] - 1)),
-                                        got.shape)
+                a, i = np.unravel_index(np.argmax(relerr), got.shape)
                 ok = False
                 ctx.fail_input(
                     "%s(particle %d, z_%d) = %.12g but the momentum integral is %.12g "
@@ -632,20 +655,29 @@ def run(ctx):
         "distinct = distinct configuration tuple; certified: grids driven through rescaling "
         "histories, all four moments by interval arithmetic")
     ctx.assumptions += [
-        "Chebyshev-U orthogonality  int sqrt(1-x^2) U_j = (pi/2) [j=0]  (textbook; named "
-        "hypothesis of moments_exact_on_class; validated through Polynomial.integrate "
-        "against closed forms for every admissible degree)",
+        "substitution x = cos t:  int_{-1}^{1} sqrt(1-x^2) U_j(x) dx = (pi/2) [j=0]  (textbook; "
+        "explicit premise of moments_exact_on_class_dx only; validated by adaptive "
+        "quadrature for every j and through Polynomial.integrate against closed forms for "
+        "every admissible degree)",
         "E > 0 at every node (mass^2 > 0, or N odd so that pz != 0)"]
 
 
 def replay(rep):
     print(json.dumps(rep, indent=1, default=str))
+    fails = []
+
+    def fail(what, r, key=None):
+        fails.append(what)
+        print("FAILS:", what)
     ctx = types.SimpleNamespace(
-        rng=__import__("random").Random(0), count=lambda *a, **k: None,
-        fail_input=lambda what, r, key=None: print("FAILS:", what))
+        rng=__import__("random").Random(0), count=lambda *a, **k: None, quick=True,
+        fail_input=fail)
     case = rep.get("case")
     if rep.get("kind") in ("exact", "not-nodal", "rescaled-vs-fresh") and case:
         check_exact(ctx, case)
     elif rep.get("kind") in ("generic", "linearity", "tmunu") and case:
         check_generic(ctx, case)
-    return 0
+    elif rep.get("kind") == "gcl":
+        check_gcl(ctx, [rep["N"]])
+    print("replay: %d failing evaluations on the current tree" % len(fails))
+    return 1 if fails else 0
